@@ -29,7 +29,10 @@ def ensemble_case(draw, families, forms=("ket1d", "ketcol", "dm"), nmin=2, nmax=
     counts = None
     if pk == "dyadic":
         counts = draw(gen.dyadic_probs(n, m=6, allow_zero=False))
-    return {"family": fam, "d": d, "n": n, "cplx": cplx, "form": form, "rank": rank, "seed": draw(gen.SEED), "probs": pk, "counts": counts}
+    # mixed dtypes inside one ensemble: the first state is stored as a real (float) array, the others are complex
+    # (added after seeded changes C10-s2 / C11-s1, which look only at the first state's dtype, were considered)
+    real_first = cplx and fam in ("generic", "two", "mixed") and draw(st.integers(0, 3)) == 0
+    return {"family": fam, "d": d, "n": n, "cplx": cplx, "form": form, "rank": rank, "seed": draw(gen.SEED), "probs": pk, "counts": counts, "real_first": real_first}
 
 
 def build_kets_or_dms(case):
@@ -38,8 +41,9 @@ def build_kets_or_dms(case):
     real = not cplx
     g = gen.rng(seed)
     kets = None
+    rf = bool(case.get("real_first"))
     if fam == "generic" or fam == "two":
-        kets = [gen.rand_ket(int(g.integers(0, 2**62)), d, real) for _ in range(n)]
+        kets = [gen.rand_ket(int(g.integers(0, 2**62)), d, real or (rf and i == 0)) for i in range(n)]
     elif fam == "orthogonal":
         u = gen.rand_unitary(seed, d, real)
         kets = [u[:, i].copy() for i in range(n)]
@@ -60,12 +64,16 @@ def build_kets_or_dms(case):
         kets = [np.linalg.matrix_power(u, k) @ psi for k in range(n)]
         kets = [v / np.linalg.norm(v) for v in kets]
     elif fam == "mixed":
-        dms = [gen.rand_density(int(g.integers(0, 2**62)), d, case["rank"], real) for _ in range(n)]
+        dms = [gen.rand_density(int(g.integers(0, 2**62)), d, case["rank"], real or (rf and i == 0)) for i in range(n)]
+        if rf:
+            dms[0] = np.real(dms[0])
         return dms, None
     else:
         raise ValueError(fam)
     if real:
         kets = [np.real(v) for v in kets]
+    elif rf:
+        kets[0] = np.real(kets[0])
     dms = [np.outer(v, v.conj()) for v in kets]
     return dms, kets
 
